@@ -25,6 +25,8 @@ Theorem C15_source_write_sets :
   calculate_extra_writes = [("Hill", []); ("Shekel", []); ("Shekel4", []); ("Rastrigin", []); ("XSquared", []); ("StronginC3", []); ("Grishagin", []); ("GKLS", [])] /\
   calculate_returns = [("Hill", ["functionValue"]); ("Shekel", ["functionValue"]); ("Shekel4", ["functionValue"]); ("Rastrigin", ["functionValue"]);
                        ("XSquared", ["functionValue"]); ("StronginC3", ["functionValue"]); ("Grishagin", ["functionValue"]); ("GKLS", ["functionValue"])] /\
-  class_level_mutables = [] /\ module_level_mutables = [] /\ mutable_defaults_written = [].
+  class_level_mutables = [] /\ module_level_mutables = [] /\ mutable_defaults_written = [] /\
+  process_global_state_calls = [] /\ memoised_functions = [] /\
+  calculate_holder_reads = [].      (* the supplied holder is only written, never read: its previous content cannot matter *)      (* no process-wide numeric/warning state is set, nothing is memoised *)
 Proof. repeat split; reflexivity. Qed.
 Print Assumptions C15_source_write_sets.
